@@ -27,7 +27,7 @@ def schedToJson (s : Schedule) : Json :=
 
 def errName : Err → String
   | .indexError => "IndexError" | .valueError => "ValueError" | .zeroDivision => "ZeroDivisionError"
-  | .assertion => "AssertionError" | .outOfFuel => "OUT_OF_FUEL"
+  | .assertion => "AssertionError" | .outOfFuel => "OUT_OF_FUEL" | .certificate => "NO_CERTIFICATE"
 
 def jExcept {α} (f : α → Json) : Except Err α → Json
   | .ok a => f a
@@ -58,6 +58,11 @@ def tileH : Handler := fun j => do
 
 def addDimH : Handler := fun j => do return schedToJson (addDim (← schedOfJson (← field j "s")))
 def clearH : Handler := fun j => do return schedToJson (clearUnused (← schedOfJson (← field j "s")))
+def clearWithH : Handler := fun j => do
+  let s ← schedOfJson (← field j "s")
+  if s.ops.isEmpty then throw "clear_unused_dims(bounds) on an empty collection is not modelled"
+  return jExcept schedToJson (clearUnusedWith (← listOf nat (← field j "bounds")) s)
+
 def canonH : Handler := fun j => do return schedToJson (canonicalize (← schedOfJson (← field j "s")))
 
 def innerH : Handler := fun j => do
@@ -78,7 +83,7 @@ def matchesH : Handler := fun j => do
   return jExcept Json.bool (matchesQ (← tmplOfJson (← field j "t")) (← schedOfJson (← field j "s")))
 
 def sameSpaceH : Handler := fun j => do
-  return Json.bool (sameRowSpaceB (← listOf (listOf int) (← field j "A")) (← listOf (listOf int) (← field j "B")))
+  return jOpt Json.bool (sameRowSpaceD (← listOf (listOf int) (← field j "A")) (← listOf (listOf int) (← field j "B")))
 
 def checkH : Handler := fun j => do
   let t ← tmplOfJson (← field j "t")
@@ -134,7 +139,7 @@ def autoflowH : Handler := fun j => do
 
 def handlers : List (String × Handler) :=
   [("c03.rotate", rotateH), ("c03.tile", tileH), ("c03.add_dim", addDimH), ("c03.clear", clearH),
-   ("c03.canon", canonH), ("c03.construct", constructH), ("c03.from_affine_map", fromMapH), ("c03.autoflow", autoflowH), ("c03.inner", innerH), ("c03.image", imageH), ("c03.backtrack", backtrackH),
+   ("c03.canon", canonH), ("c03.clear_with", clearWithH), ("c03.construct", constructH), ("c03.from_affine_map", fromMapH), ("c03.autoflow", autoflowH), ("c03.inner", innerH), ("c03.image", imageH), ("c03.backtrack", backtrackH),
    ("c16.matches", matchesH), ("c16.same_space", sameSpaceH), ("c16.check", checkH), ("c16.ocs", ocsH)]
 
 end SnaxVerif.Drv.C03
